@@ -5,7 +5,7 @@ import cmdgen
 import gdbcheck
 
 INFO = {
-    'proof_files': ['Proofs/GdbProofs.v', 'Proofs/ConnMgrProofs.v'],
+    'proof_files': ['Proofs/GdbProofs.v', 'Proofs/ConnMgrProofs.v', 'Proofs/GdbRunsA.v', 'Proofs/GdbRunsB.v'],
     'assumptions': [
         'theorems are about WD.Session (gdb_message / gdb_destroy / open_conn / close_conn); tied to plugin.py (Plugin.connections, open/close_connection, process_message, WlConnectionDestroyBreakpoint.stop) and ConnectionManager by event sequences (messages on several addresses from several threads, destruction of known / already closed / never seen connections, address reuse) run through the REAL plugin under harness/fakegdb; compared: notices, X: prefixes, warnings, exceptions escaping stop(), final connections and their tables',
     ],
